@@ -463,3 +463,42 @@ def run_check(prop_id, tier, seed, replay_path=None):
         f"violations={len(failures)} known={sum(known.values())} errors={len(errors)} wall={wall}s"
     )
     return status
+
+
+def atheris_unit(prop_id, rec, runs, seed):
+    """Coverage-guided pass in a subprocess (pbt/fuzz_atheris.py).  Skipped, and said so in the evidence,
+    when the atheris wheel was not installed into /verif/.deps by setup.sh; no claim depends on it."""
+    import subprocess
+    import tempfile
+
+    deps = ROOT / ".deps"
+    if not (deps / "atheris").exists():
+        rec.notes.append("atheris not installed in .deps: coverage-guided pass skipped")
+        return
+    out = Path(tempfile.mkdtemp(prefix="ath_")) / "out.json"
+    env = dict(os.environ)
+    env["PYTHONPATH"] = env.get("PYTHONPATH", "") + os.pathsep + str(deps)
+    r = subprocess.run([sys.executable, "-m", "pbt.fuzz_atheris", prop_id, str(runs), str(seed), str(out)], cwd=str(ROOT), env=env,
+                       capture_output=True, text=True, timeout=7200)
+    try:
+        data = json.loads(out.read_text())
+    except Exception:  # noqa: BLE001
+        rec.notes.append(f"atheris pass produced no result (exit {r.returncode}): {r.stderr[-300:]}")
+        return
+    finally:
+        import shutil
+
+        shutil.rmtree(out.parent, ignore_errors=True)
+        for p in Path(tempfile.gettempdir()).glob("ath_corpus_*"):
+            shutil.rmtree(p, ignore_errors=True)
+    rec.evaluations += data["valid"]
+    rec.nontrivial_extra += 0
+    for k, v in data.get("classes", {}).items():
+        rec.classes["atheris:" + k] += v
+    rec.classes["atheris-execs"] += data["execs"]
+    rec.classes["atheris-valid-cases"] += data["valid"]
+    rec.notes.append(f"atheris: {data['execs']} executions, {data['valid']} decoded into valid cases, {data['nontrivial']} non-trivial")
+    f = data.get("failure")
+    if f:
+        rec.fail(Mismatch(f["kind"], f["detail"], f.get("expected"), f.get("observed")), f["case"])
+
